@@ -12,6 +12,8 @@ package main
 //   big    <fa|fq1|fq0|gb0|em0> <workers> <transport> <nrec> <seed>   the real Read* entry point (hard-coded
 //                                                            1 MiB / 128 MiB buffer) on a generated multi-chunk file
 //   kseq   <fa|fq> <hex>                                     C/kseq reader against the Go chunk parser
+//   file   <fa|fq1|gb0|em0> <plain|gz> <hex>                 the universal entry point ReadSequencesFromFile on a real file
+//                                                            (Ropen + OBIMimeTypeGuesser + dispatch + the real reader)
 //
 // results: records `id:def:seq:qual[:taxid:sci:feat]#nann` (hex fields) separated by spaces, `none`, `fatal`, `panic`, `hang`.
 
@@ -493,6 +495,9 @@ func c01RefGenbank(data []byte, withFeat bool) ([]c01Rec, bool) {
 				r.def = strings.TrimSpace(l[12:])
 				i++
 				for i < len(ls) && strings.HasPrefix(ls[i], "            ") {
+					if len(ls[i]) > 100 {
+						return nil, false
+					}
 					r.def += " " + strings.TrimSpace(ls[i][12:])
 					i++
 				}
@@ -572,6 +577,10 @@ func c01RefEmbl(data []byte, withFeat bool) ([]c01Rec, bool) {
 		nfh := 0
 		for i < len(ls) && ls[i] != "//" {
 			l := ls[i]
+			if len(l) > 80 {
+				// an EMBL line has at most 80 bytes; the scanner of the real parser gives up at 65536
+				return nil, false
+			}
 			switch {
 			case strings.HasPrefix(l, "ID   "):
 				return nil, false
@@ -730,6 +739,36 @@ func c01MakeStyle(rng *rand.Rand) c01Style {
 	return st
 }
 
+
+// white space as strings.TrimSpace / unicode.IsSpace see it, and look-alikes that are NOT white space (invalid or
+// overlong UTF-8, zero-width space, BOM, lone continuation / lead bytes)
+var c01SpaceRunes = []string{"\v", "\f", " ", "\t", "\u0085", "\u00a0", "\u1680", "\u2000", "\u2003", "\u200a", "\u2028", "\u2029", "\u202f", "\u205f", "\u3000"}
+var c01NotSpace = []string{"\xa0", "\x85", "\xc2", "\xe2\x80", "\xc0\xa0", "\u200b", "\ufeff", "\xe2\x80\x8b", "\xe1\x9a", "\xe3\x80\x81", "\xe2\x81\xa0", "\xc2\xa1", "\xc2\x84", "\xff", "\u00e9", "\xe2\x80\x80\x80"}
+
+// c01Exotic wraps v in 0..2 white-space runes / look-alikes on each side (about one value in three)
+func c01Exotic(rng *rand.Rand, v string) string {
+	if rng.Intn(3) != 0 {
+		return v
+	}
+	stat("exotic-space-value")
+	tok := func() string {
+		s := ""
+		for k := rng.Intn(3); k > 0; k-- {
+			if rng.Intn(3) == 0 {
+				s += c01NotSpace[rng.Intn(len(c01NotSpace))]
+			} else {
+				s += c01SpaceRunes[rng.Intn(len(c01SpaceRunes))]
+			}
+		}
+		return s
+	}
+	mid := ""
+	if rng.Intn(3) == 0 {
+		mid = tok() + "z"
+	}
+	return tok() + v + mid + tok()
+}
+
 func c01GenHeader(rng *rand.Rand) string {
 	h := c01Pick(rng, c01IdAlpha, 1+rng.Intn(7))
 	if rng.Intn(3) > 0 {
@@ -741,8 +780,17 @@ func c01GenHeader(rng *rand.Rand) string {
 			h += " "
 		}
 	}
+	if c01ExoticTitles && rng.Intn(6) == 0 {
+		// VT, FF, NBSP, NEL, high bytes inside the title: plain bytes for the Go state machines
+		stat("exotic-title")
+		p := 1 + rng.Intn(len(h))
+		h = h[:p] + []string{"\v", "\f", "\u00a0", "\u0085", "\xff", "\x00", "\x7f"}[rng.Intn(7)] + h[p:]
+	}
 	return h
 }
+
+// set while generating files that are not given to the kseq op (the C reader splits titles with isspace())
+var c01ExoticTitles = false
 
 func c01GenFasta(rng *rand.Rand, nrec int) []byte {
 	st := c01MakeStyle(rng)
@@ -833,9 +881,9 @@ func c01GenGenbank(rng *rand.Rand, nrec int, compact bool) []byte {
 		id := c01Pick(rng, "ABCXYZ0189_.", 2+rng.Intn(6))
 		b.WriteString(fmt.Sprintf("LOCUS       %s %d bp    DNA     linear   PLN 01-JAN-2000", id, nseq) + st.eol())
 		if rng.Intn(5) > 0 {
-			b.WriteString("DEFINITION  " + c01Pick(rng, "abc XYZ,>@+", 1+rng.Intn(20)) + st.eol())
+			b.WriteString("DEFINITION  " + c01Exotic(rng, c01Pick(rng, "abc XYZ,>@+", 1+rng.Intn(20))) + st.eol())
 			if rng.Intn(3) == 0 {
-				b.WriteString("            " + c01Pick(rng, "abc XYZ.", 1+rng.Intn(12)) + st.eol())
+				b.WriteString("            " + c01Exotic(rng, c01Pick(rng, "abc XYZ.", 1+rng.Intn(12))) + st.eol())
 			}
 		}
 		if !compact || rng.Intn(2) == 0 {
@@ -843,7 +891,7 @@ func c01GenGenbank(rng *rand.Rand, nrec int, compact bool) []byte {
 		}
 		sp := c01Species[rng.Intn(len(c01Species))]
 		if rng.Intn(2) == 0 {
-			b.WriteString("SOURCE      " + sp + st.eol())
+			b.WriteString("SOURCE      " + c01Exotic(rng, sp) + st.eol())
 			if rng.Intn(2) == 0 {
 				b.WriteString("  ORGANISM  " + sp + st.eol())
 				b.WriteString("            Eukaryota; Metazoa." + st.eol())
@@ -899,14 +947,14 @@ func c01GenEmbl(rng *rand.Rand, nrec int, compact bool) []byte {
 			b.WriteString("AC   " + id + ";" + st.eol())
 		}
 		if rng.Intn(5) > 0 {
-			b.WriteString("DE   " + c01Pick(rng, "abcXYZ,>@+", 1) + c01Pick(rng, "abc XYZ,>@+", rng.Intn(20)) + st.eol())
+			b.WriteString("DE   " + c01Exotic(rng, c01Pick(rng, "abcXYZ,>@+", 1)+c01Pick(rng, "abc XYZ,>@+", rng.Intn(20))) + st.eol())
 			if rng.Intn(3) == 0 {
-				b.WriteString("DE   " + c01Pick(rng, "abcXYZ.", 1+rng.Intn(12)) + st.eol())
+				b.WriteString("DE   " + c01Exotic(rng, c01Pick(rng, "abcXYZ.", 1+rng.Intn(12))) + st.eol())
 			}
 		}
 		sp := c01Species[rng.Intn(len(c01Species))]
 		if rng.Intn(2) == 0 {
-			b.WriteString("OS   " + sp + st.eol())
+			b.WriteString("OS   " + c01Exotic(rng, sp) + st.eol())
 			if rng.Intn(2) == 0 {
 				b.WriteString("OC   Eukaryota; Metazoa." + st.eol())
 			}
@@ -1198,6 +1246,117 @@ func (c01) Gen(rng *rand.Rand, tier string, emit func(string)) {
 		emit(c)
 	}
 
+	// ---- bufio limits: lines around 100 / 4096 bytes (GenBank ReadLine), around 65536 bytes (EMBL Scanner), long
+	// title / sequence / quality lines through the 4096-byte bufio.Reader of the FASTA / FASTQ parsers
+	rep := strings.Repeat
+	emRec := func(id, extra string) string {
+		return "ID   " + id + "; SV 1;\n" + extra + "DE   d " + id + "\nSQ   Sequence 4 BP;\n     acgt         4\n//\n"
+	}
+	emLens := []int{65535, 65536, 65537}
+	if tier == "thorough" {
+		// every thorough seed runs 65536 and four other lengths (the seeds together cover the list)
+		all := []int{4096, 65533, 65534, 65535, 65537, 65538, 70001, 131072}
+		rng.Shuffle(len(all), func(i, j int) { all[i], all[j] = all[j], all[i] })
+		emLens = append([]int{65536}, all[:4]...)
+	}
+	for _, n := range emLens {
+		long := "CC   " + rep("x", n-5) // a line of n bytes
+		stat("long-line:em")
+		for vi, f := range []string{
+			emRec("A", "") + emRec("B", long+"\n") + emRec("C", ""),           // inside the second record
+			emRec("A", "") + emRec("B", long[:n-1]+"\r\n") + emRec("C", ""),  // n-1 bytes + CR LF
+			emRec("A", "") + long,                                              // unterminated last line
+			long + "\n" + emRec("A", ""),                                      // first line
+			emRec("A", "") + emRec("B", "") + "\n" + long + "\n" + emRec("C", ""), // between records
+			// many records after the long line: with a 1000-byte buffer a cut falls among them, the later ones are then
+			// delivered, the one-chunk parse delivers none of them (chunk dependence outside the well-formed files)
+			emRec("A", "") + emRec("B", long+"\n") + func() string {
+				t := ""
+				for k := 0; k < 40; k++ {
+					t += emRec("C"+strconv.Itoa(k), "")
+				}
+				return t
+			}(),
+		} {
+			if tier != "thorough" && vi >= 3 && n != 65536 {
+				continue
+			}
+			emit("parse em" + strconv.Itoa(vi%2) + " " + h(f))
+			for _, b := range []int{5000 - 4000*(vi/5), 65536, len(f) + 2} {
+				emit(fmt.Sprintf("pipe em%d %d %d bytes %s", (vi+1)%2, b, 1+vi%3, h(f)))
+			}
+			emit(fmt.Sprintf("chunks ff %d %s", 40000, h(f)))
+		}
+	}
+	gbLens := []int{99, 100, 101, 4095, 4096, 4097}
+	if tier == "thorough" {
+		gbLens = []int{88, 99, 100, 101, 102, 4094, 4095, 4096, 4097, 4098, 8192, 9000, 70000}
+	}
+	for _, n := range gbLens {
+		stat("long-line:gb")
+		pad := func(pfx string) string { return pfx + rep("x", n-len(pfx)) }
+		gbRec := func(id, c1, c2, c3 string) string {
+			return "LOCUS       " + id + " 4 bp\n" + c1 + "DEFINITION  d " + id + ".\n" + c2 + "FEATURES             Location/Qualifiers\n" + c3 + "ORIGIN\n        1 acgt\n//\n"
+		}
+		for vi, f := range []string{
+			gbRec("A", "", "", "") + gbRec("B", pad("COMMENT     ")+"\n", "", "") + gbRec("C", "", "", ""),
+			gbRec("A", "", "", "") + gbRec("B", "", pad("            ")+"\n", "") + gbRec("C", "", "", ""),       // continuation of DEFINITION
+			gbRec("A", "", "", "") + gbRec("B", "", "", pad("     misc_feature    ")+"\r\n") + gbRec("C", "", "", ""), // feature line + CR LF
+			gbRec("A", "", "", "") + pad("COMMENT     "),                                                    // unterminated last line
+			gbRec("A", "", "", "") + "LOCUS       B 4 bp\nFEATURES    x\nORIGIN\n" + pad("        1 ") + "\n//\n", // sequence line
+			gbRec("A", "", "", "") + "LOCUS       B 4 bp\nFEATURES    x\nORIGIN\n" + pad("        1 ")[:n-1] + "\r\n//\r\n",
+		} {
+			emit("parse gb" + strconv.Itoa(vi%2) + " " + h(f))
+			emit(fmt.Sprintf("pipe gb%d %d %d bytes %s", (vi+1)%2, 64, 1+vi%3, h(f)))
+			emit(fmt.Sprintf("pipe gb%d %d %d pipe %s", vi%2, len(f)+2, 2, h(f)))
+		}
+	}
+	// (the Lean model appends byte by byte: quadratic in the line length, hence nothing beyond 3 x 4096 here)
+	fxLens := []int{4095, 4096, 4097}
+	if tier == "thorough" {
+		all := []int{20, 4094, 4095, 4097, 4098, 8191, 8192, 8193, 12289}
+		rng.Shuffle(len(all), func(i, j int) { all[i], all[j] = all[j], all[i] })
+		fxLens = append([]int{4096}, all[:3]...)
+	}
+	for _, n := range fxLens {
+		stat("long-line:fa+fq")
+		sq := rep("acgtn", n/5+1)[:n]
+		ql := rep("@+I5>", n/5+1)[:n]
+		fa := ">a " + rep("d", n) + "\n" + sq + "\n>b\nAC\n" + sq[:n/2] + "\n>" + rep("i", n) + "\r\nGG\r\n"
+		fq := "@a " + rep("d", n) + "\n" + sq + "\n+\n" + ql + "\n@b\nAC\n+" + rep("p", n) + "\n@+\n@" + rep("i", n) + "\r\nGG\r\n+\r\n@@\r\n"
+		emit("parse fa " + h(fa))
+		emit("parse fq1 " + h(fq))
+		for _, b := range []int{4096, len(fq) + 2} {
+			emit(fmt.Sprintf("pipe fa %d 2 bytes %s", b, h(fa)))
+			emit(fmt.Sprintf("pipe fq1 %d 3 pipe %s", b, h(fq)))
+		}
+		emit("kseq fa " + h(fa))
+		emit("kseq fq " + h(fq))
+	}
+	// ---- strings.TrimSpace on every white-space rune and on look-alikes, at both ends of DEFINITION / SOURCE / DE / OS
+	for i, tkn := range append(append([]string{}, c01SpaceRunes...), c01NotSpace...) {
+		v := tkn + tkn + "a " + tkn + " b" + tkn
+		gb := "LOCUS       A 4 bp\nDEFINITION  " + v + "\n            " + tkn + "\n            " + v + "\nSOURCE      " + v + tkn + "\nFEATURES             Location/Qualifiers\nORIGIN\n        1 acgt\n//\n"
+		em := "ID   A; SV 1;\nDE   " + v + "\nDE   x" + tkn + "\nOS   " + tkn + v + "\nSQ   Sequence 4 BP;\n     acgt         4\n//\n"
+		emit("parse gb" + strconv.Itoa(i%2) + " " + h(gb))
+		emit("parse em" + strconv.Itoa(i%2) + " " + h(em))
+		emit(fmt.Sprintf("pipe gb0 %d 2 bytes %s", 16+i, h(gb+gb)))
+		emit(fmt.Sprintf("pipe em1 %d 2 one %s", 16+i, h(em+em)))
+		// the same bytes inside FASTA / FASTQ titles: plain bytes (only blank and tab separate id and definition)
+		emit("parse fa " + h(">i"+tkn+"d "+tkn+"e"+tkn+"\nAC\n>"+tkn+"\nG\n"))
+		emit("parse fq1 " + h("@i"+tkn+"d\t"+tkn+"e"+tkn+"\nAC\n+\nII\n"))
+	}
+	// empty sequences, records without sequence line, title only
+	for _, c := range []string{
+		"parse fa " + h(">a\nAC\n>b\n"), "parse fa " + h(">a\n\n>b\nAC\n"), "parse fa " + h(">a\n"), "pipe fa 4 2 bytes " + h(">a\nAC\n>b\n\n>c\nG\n"),
+		"parse fq1 " + h("@a\n\n+\n\n"), "parse fq1 " + h("@a\nAC\n+\nII\n@b\n\n+\n\n"), "pipe fq1 6 2 bytes " + h("@a\nAC\n+\nII\n@b\n\n+\n\n@c\nG\n+\nI\n"),
+		"parse gb0 " + h("LOCUS       A 0 bp\nFEATURES    x\nORIGIN\n//\n"), "parse gb1 " + h("LOCUS       A 0 bp\nFEATURES    x\nCONTIG      join(B:1..4)\n//\nLOCUS       B 4 bp\nFEATURES    y\nORIGIN\n        1 acgt\n//\n"),
+		"pipe gb1 20 3 bytes " + h("LOCUS       A 0 bp\nFEATURES    x\nCONTIG      join(B:1..4,\n            C:1..9)\n//\nLOCUS       B 4 bp\nFEATURES    y\nORIGIN\n        1 acgt\n//\n"),
+		"parse em0 " + h("ID   A;\nSQ   Sequence 0 BP;\n//\n"), "parse em1 " + h("ID   A;\nFH   Key\nFH\nFT   source 1..4\nCO   join(B:1..4)\n//\n"),
+	} {
+		emit(c)
+	}
+
 	type plan struct {
 		kind     string
 		files    int
@@ -1216,7 +1375,10 @@ func (c01) Gen(rng *rand.Rand, tier string, emit func(string)) {
 			if fi%5 != 0 && nrec < 2 {
 				nrec = 2 + rng.Intn(pl.maxrec-1)
 			}
+			c01ExoticTitles = fi%3 == 2
 			data := c01GenFile(rng, pl.kind, nrec, pl.compact)
+			exotic := c01ExoticTitles
+			c01ExoticTitles = false
 			hexd := hx(data)
 			sp := c01SplitOf(pl.kind)
 			emit("parse " + c01Opts(rng, pl.kind) + " " + hexd)
@@ -1232,8 +1394,13 @@ func (c01) Gen(rng *rand.Rand, tier string, emit func(string)) {
 				emit(fmt.Sprintf("pipe %s %d %d %s %s", c01Opts(rng, pl.kind), b, 1+k%4, c01Transports[(k/4)%4], hexd))
 				k++
 			}
-			if pl.kind == "fa" || pl.kind == "fq" {
+			if (pl.kind == "fa" || pl.kind == "fq") && !exotic {
 				emit("kseq " + pl.kind + " " + hexd)
+			}
+			// the universal entry point on a real file (format sniffing, opener, real buffers); the flat-file readers
+			// allocate 128 MiB per call: one file per plan (thorough: two)
+			if len(data) > 0 && (pl.kind == "fa" || pl.kind == "fq" || fi < 1 || (fi < 2 && tier == "thorough")) {
+				emit("file " + map[string]string{"fa": "fa", "fq": "fq1", "gb": "gb0", "em": "em0"}[pl.kind] + " " + []string{"plain", "gz"}[fi%2] + " " + hexd)
 			}
 		}
 	}
@@ -1646,6 +1813,77 @@ func (c01) Exec(c string) (string, []Fail) {
 		}
 		return res, fails
 
+	case "file":
+		f, okf := c01Format(w[1])
+		if len(w) != 4 || !okf || (w[2] != "plain" && w[2] != "gz") || (w[1] != "fa" && w[1] != "fq1" && w[1] != "gb0" && w[1] != "em0") {
+			return "bad-op", nil
+		}
+		data, ok := unhx(w[3])
+		if !ok {
+			return "bad-op", nil
+		}
+		caseTrivial = true // oracle-only case: the model does not recompute it
+		stat("op:file:" + w[1] + ":" + w[2])
+		o1, one := c01Parse(f, data)
+		want, wf := c01Ref(f, data)
+		if o1 != "" || !wf || len(want) == 0 {
+			stat("file-skipped")
+			return "same", nil
+		}
+		ext := map[string]string{"fa": ".fasta", "fq1": ".fastq", "gb0": ".gb", "em0": ".embl"}[w[1]]
+		raw := data
+		if w[2] == "gz" {
+			var b bytes.Buffer
+			zw := gzip.NewWriter(&b)
+			zw.Write(data)
+			zw.Close()
+			raw = b.Bytes()
+			ext += ".gz"
+		}
+		tmp, err := os.CreateTemp("", "c01-*"+ext)
+		if err != nil {
+			return "same", nil
+		}
+		tmp.Write(raw)
+		tmp.Close()
+		defer os.Remove(tmp.Name())
+		var got []c01Rec
+		ordered := true
+		res := guardT(60*time.Second, func() string {
+			it, err := obiformats.ReadSequencesFromFile(tmp.Name(), obiformats.OptionsParallelWorkers(2),
+				obiformats.OptionFastSeqDoNotParseHeader(), obiformats.OptionsReadQualities(true))
+			if err != nil {
+				return "err"
+			}
+			nb := 0
+			for it.Next() {
+				b := it.Get()
+				if b.Order() != nb {
+					ordered = false
+				}
+				nb++
+				got = append(got, c01FromSlice(b.Slice(), f.flat)...)
+			}
+			return ""
+		})
+		if res != "" {
+			fail(w[1]+".outcome", "ReadSequencesFromFile on a well-formed %s file (%s): %s", w[1], w[2], res)
+			return "differ", fails
+		}
+		if !ordered {
+			fail(w[1]+".order", "batches are not delivered in order 0,1,2,…")
+		}
+		if d := c01Diff(got, one); d != "" {
+			fail(w[1]+".entry-point."+d, "ReadSequencesFromFile (%s) differs from the chunk parser on the same bytes (%s): got %s want %s", w[2], d, c01Show(got), c01Show(one))
+			return "differ", fails
+		}
+		if d := c01Diff(got, want); d != "" {
+			fail(w[1]+".content."+d, "ReadSequencesFromFile (%s): records differ from what each record's own text implies (%s)", w[2], d)
+			return "differ", fails
+		}
+		stat("file-compared")
+		return "same", fails
+
 	case "kseq":
 		if len(w) != 3 || (w[1] != "fa" && w[1] != "fq") {
 			return "bad-op", nil
@@ -1696,7 +1934,13 @@ func (c01) Exec(c string) (string, []Fail) {
 		}
 		_, goRecs := c01Parse(f, data)
 		if d := c01Diff(got, goRecs); d != "" {
-			fail(w[1]+".two-parsers."+d, "kseq reader and Go chunk parser disagree (%s): kseq %s ; go %s", d, c01Show(got), c01Show(goRecs))
+			cls := "two-parsers."
+			if bytes.ContainsAny(data, "\v\f") {
+				// kseq splits the title with isspace() (VT and FF included), the Go state machines at blank / tab only:
+				// own signature class, so that a finding recorded for it cannot hide any other disagreement
+				cls = "two-parsers-vt-ff."
+			}
+			fail(w[1]+"."+cls+d, "kseq reader and Go chunk parser disagree (%s): kseq %s ; go %s", d, c01Show(got), c01Show(goRecs))
 			return "differ", fails
 		}
 		stat("kseq-compared")
